@@ -10,6 +10,18 @@ CLAIMED = {
  "C13": ("Bounded symbolic execution of the real output strategies (atomicfile.WriteFile / WriteInPlace+Commit, binpatch rewrite) over an in-memory model of the os package in which the crash index (process killed before FS step k) and per-call OS failures are symbolic choices: at every crash point and after every handled error the destination holds exactly OLD or exactly NEW, never disappears if it existed, the input is unchanged, and no *.tmp sibling remains after a return.",
          "Trusted: the engine's os model (rename atomic and replacing, unlink/close semantics, a failing unlink is not injected), z3. Bounds: payload <=3 bytes, <=2 patches, <=12 FS steps. Durability (fsync/power loss) is outside: the property is about process kill.",
          "DESIGN.md §4 C13"),
+ "C11": ("Each byte-level parser entry point in reach (cabfile.Digest, authenticode.DigestPE, zipslicer.ReadWithDirectory/Read, binpatch.Load) is symbolically executed on an arbitrary byte buffer of bounded length; the implicit assertions no panic / no allocation above 4 MiB+16*len sized by input / loop bound proportional to input are decided by z3 on every feasible path.",
+         "Trusted: engine + intrinsics, z3. Bounds: the input lengths and fixed layout fields listed per harness (bound_cuts in evidence list every symbolic length cut). Text, XML, ASN.1, PGP and tar/ar parsers are outside the claim.",
+         "DESIGN.md §4 C11"),
+ "C09": ("Block-buffered stream consumers are executed on symbolic data under every split of the stream into writes (split points symbolic): the PE checksum is independent of the write split for every field position (bounded length).",
+         "Trusted: engine, z3. Bounds: <=10 (16 thorough) byte streams, 3 writes. Codecs, tar framing, HTTP retry are outside.",
+         "DESIGN.md §4 C09"),
+ "C05": ("Partial: relic's digest kernels are compared with reference computations written from the specification inside the harness (independent structure), on symbolic inputs: PE checksum whole-buffer reference for short files plus the one-word inductive step from an arbitrary reachable state (covers files of any length).",
+         "Trusted: the reference in the harness (read from the PE/COFF specification), engine, z3. External verifiers (jarsigner, openssl, gpg, dpkg) cannot be executed symbolically: outside.",
+         "DESIGN.md §4 C05"),
+ "C18": ("Partial: the directory red-black tree insertion is executed from empty for every arrival order and relative order of k symbolic keys; BST order, root black, no red-red edge and equal black height are asserted on every path.",
+         "Trusted: engine, z3. Bounds: k<=5 (7 thorough) keys. Sector allocation, whole-file validity at real sector sizes: not yet covered in this revision.",
+         "DESIGN.md §4 C18"),
 }
 
 NOT_APPLICABLE = {
